@@ -1,13 +1,8 @@
 CONSTANTS
   Syms = {"C", "N", "O", "S", "P", "Cl"}
   FgNames = {"ether", "ester", "amid", "keton"}
-  LoopMode = "all"
+  LoopMode = "stop_at_no_rule"
 SPECIFICATION Spec
 INVARIANT TwoBoundariesClosed
 INVARIANT TwoBoundariesOrderFree
-INVARIANT AlwaysAMergeRule
-INVARIANT CompletionWellFormed
-INVARIANT ExpansionsCarbonFree
-INVARIANT RoundTripExceptions
-INVARIANT RestrictionOnlyHetero
 CHECK_DEADLOCK FALSE
